@@ -666,8 +666,9 @@ static bool examine(vh::Reporter& rep, Rng& rng, Monitor& m, const std::vector<c
         };
         // Opening a run together with base runs whose vector layout differs is known to index out of bounds in the ESmry
         // constructor, and so does ExtESmry for a nested chain: such sections run in a child process so that the death of
-        // the reader is an observation with a stable key and the remaining sections and cases are still examined.
-        const bool isolate = withBase && (o.layoutClass != 0 || depth > 1) && !o.noFork;
+        // the reader is an observation with a stable key and the remaining sections and cases are still examined.  The same
+        // holds when files of another run are mistaken for those of the run that is opened (other PARAMS length).
+        const bool isolate = ((withBase && (o.layoutClass != 0 || depth > 1)) || o.tailName) && !o.noFork;
         if (!isolate) {
             if (guarded()) ++sectionsDone;
             return;
